@@ -58,6 +58,10 @@ PROPERTIES
   Act_C10_FromERC20
   Act_C10_Hook
   Act_C10_SumConst
+  Act_C10_ToERC20H
+  Act_C10_FromERC20H
+  Act_C10_SumConstH
+  Act_X09_RecordsAsHistory
   Act_C10_FailAtomic
   Act_C10_SwapSettle
   Act_C10_ExactAtOne
